@@ -564,7 +564,21 @@ func (s *State) exec(ins ssa.Instruction) (next []*State, stop bool) {
 	case *ssa.Send:
 		s.abstracted("channel send")
 	case *ssa.Select:
-		panic(abortPath{"select statement"})
+		// A-CHAN: which case fires, and what is received, is arbitrary
+		s.abstracted("select statement: the chosen case and received values are arbitrary")
+		idx := s.freshConst("sel", "Int")
+		lo := "0"
+		if !ins.Blocking {
+			lo = "(- 1)"
+		}
+		s.assert(fmt.Sprintf("(and (<= %s %s) (< %s %d))", lo, idx, idx, len(ins.States)))
+		vals := []Value{idx, s.freshConst("selok", "Bool")}
+		for _, st := range ins.States {
+			if st.Dir == types.RecvOnly {
+				vals = append(vals, s.freshOf("selrecv", st.Chan.Type().Underlying().(*types.Chan).Elem()))
+			}
+		}
+		fr.Vals[ins] = &Tuple{vals}
 	case *ssa.Range:
 		s.execRange(ins)
 	case *ssa.Next:
@@ -851,8 +865,22 @@ func (s *State) binop(b *ssa.BinOp) Term {
 			}
 		default:
 			eq = fmt.Sprintf("(= %s %s)", x, y)
+			if strings.HasPrefix(x, "strlit!") && strings.HasPrefix(y, "strlit!") {
+				// distinct string literals are distinct values
+				if x == y {
+					eq = "true"
+				} else {
+					eq = "false"
+				}
+			}
 		}
 		if b.Op == token.NEQ {
+			if eq == "true" {
+				return "false"
+			}
+			if eq == "false" {
+				return "true"
+			}
 			return "(not " + eq + ")"
 		}
 		return eq
